@@ -307,7 +307,11 @@ type query struct {
 	from     int    // number of graphs
 	tail     string // global time bound
 	order    string // ORDER BY clause text ("" = none)
+	names    []string // graph names ("" / missing = ?g<i>)
 }
+
+// graph names that are substrings / prefixes of names listed before them (all start with ?g: never taken for bindings)
+var nameSchemes = [][]string{nil, {"?gfam2", "?gfam", "?gf"}, {"?g10", "?g1", "?g"}, {"?g", "?g1", "?g10"}}
 
 func (q query) text() string {
 	var cs []string
@@ -329,7 +333,7 @@ func (q query) text() string {
 	}
 	var gs []string
 	for i := 0; i < q.from; i++ {
-		gs = append(gs, fmt.Sprintf("?g%d", i))
+		gs = append(gs, graphName(q.names, i))
 	}
 	t := ""
 	if q.tail != "" {
@@ -680,7 +684,8 @@ func genC03(r *rand.Rand, n int, exhaustive bool, out func(J), next func() int) 
 		ts := cycleData(r)
 		k := 1 + i%3
 		q := cycleQuery(r, k)
-		out(tag(run(Spec{Graphs: roundRobin(ts, k, i%k), Query: q.text()}, false), "cycles", next()))
+		q.names = nameSchemes[i%len(nameSchemes)]
+		out(tag(run(Spec{Graphs: roundRobin(ts, k, i%k), Names: q.names, Query: q.text()}, false), "cycles", next()))
 	}
 	// (3e) windows given by bindings, several rows with different windows, a later temporal clause
 	for i := 0; i < n/16; i++ {
@@ -765,6 +770,19 @@ func genC03(r *rand.Rand, n int, exhaustive bool, out func(J), next func() int) 
 		q.proj = []string{"?s AS ?o, ?o AS ?v", "?o AS ?s, ?s AS ?w", "?s AS ?o, ?o AS ?s"}[i%3]
 		gsx := [][]string{g0, g1}[:q.from]
 		out(tag(run(Spec{Graphs: gsx, Query: q.text()}, false), "merge-alias", next()))
+	}
+	// (3j) a binding used twice in a clause that also has an anchor / TYPE / ID / AT binding
+	for i := 0; i < n/16; i++ {
+		ts := repeatData()
+		r.Shuffle(len(ts), func(a, b int) { ts[a], ts[b] = ts[b], ts[a] })
+		k := 1 + i%2
+		q := repeatQuery(r, k)
+		if i%3 == 1 { // the other clause order
+			for a, b := 0, len(q.clauses)-1; a < b; a, b = a+1, b-1 {
+				q.clauses[a], q.clauses[b] = q.clauses[b], q.clauses[a]
+			}
+		}
+		out(tag(run(Spec{Graphs: roundRobin(ts, k, i%k), Query: q.text()}, false), "repeat-extract", next()))
 	}
 	// (4) malformed stream: statements the front end must reject
 	bad := []string{
@@ -998,6 +1016,37 @@ func orderData(r *rand.Rand) []string {
 	return ts
 }
 
+// clauses that use a binding twice AND carry an anchor / TYPE / ID / AT binding, joined with a second clause
+func repeatData() []string {
+	return []string{
+		"/u<a>\t\"met\"@[2016-01-01T00:00:00Z]\t/u<a>", "/u<a>\t\"met\"@[2016-06-01T00:00:00-08:00]\t/u<b>",
+		"/u<b>\t\"met\"@[2016-01-01T00:00:00Z]\t/u<a>", "/u<b>\t\"p\"@[]\t/u<b>", "/u<a>\t\"p\"@[]\t/u<c>", "/u<c>\t\"p\"@[]\t/u<c>",
+		"/u<a>\t\"name\"@[]\t\"hi\"^^type:text", "/u<b>\t\"name\"@[]\t\"a\"^^type:text", "/u<c>\t\"name\"@[]\t\"1\"^^type:int64",
+		"/u<c>\t\"q\"@[2016-01-01T00:00:00Z]\t\"q\"@[2016-01-01T00:00:00Z]", "/u<b>\t\"q\"@[2016-01-01T00:00:00Z]\t\"q\"@[2016-06-01T00:00:00-08:00]",
+	}
+}
+
+var repeatQueries = [][]string{
+	{`?x "met"@[?t] ?x`, `?x "name"@[] ?n`},
+	{`?x "p"@[] ?x TYPE ?ty`, `?x "name"@[] ?n`},
+	{`?x ID ?i "p"@[] ?x`, `?x "name"@[] ?n`},
+	{`?x ?p AT ?t ?x`, `?x "name"@[] ?n`},
+	{`?x TYPE ?ty ?p ?x`, `?x ?q ?o`},
+	{`?s ?p AT ?t ?p`, `?s "name"@[] ?n`},
+	{`?s "q"@[?t] "q"@[?t]`, `?s ?p2 ?o2`},
+	{`?x "met"@[?t] ?x`, `?y "met"@[?t] ?x`, `?y "name"@[] ?n`},
+}
+
+func repeatQuery(r *rand.Rand, k int) query {
+	cl := repeatQueries[r.Intn(len(repeatQueries))]
+	q := query{from: k}
+	for _, c := range cl {
+		q.clauses = append(q.clauses, c)
+		q.optional = append(q.optional, false)
+	}
+	return q
+}
+
 var orderQueries = []query{
 	{clauses: []string{`?s "e"@[?t] ?o`}, optional: []bool{false}, proj: "?s, ?t, ?o", order: "?t"},
 	{clauses: []string{`?s "e"@[?t] ?o`}, optional: []bool{false}, proj: "?t, ?s", order: "?t DESC"},
@@ -1030,6 +1079,11 @@ func genC14(r *rand.Rand, n int, out func(J), next func() int) {
 			}
 			q = query{clauses: []string{`?a "p"@[] ?b`, `?b "p"@[] ?c`}, optional: []bool{false, false}}
 			ncl = 2
+		case gi%8 == 6:
+			ts = repeatData()
+			r.Shuffle(len(ts), func(a, b int) { ts[a], ts[b] = ts[b], ts[a] })
+			q = repeatQuery(r, 1)
+			ncl = len(q.clauses)
 		case gi%8 == 5:
 			ts = windowData()
 			r.Shuffle(len(ts), func(a, b int) { ts[a], ts[b] = ts[b], ts[a] })
@@ -1088,7 +1142,10 @@ func genC14(r *rand.Rand, n int, out func(J), next func() int) {
 			q2.from = k
 			emitv(fmt.Sprintf("split:%d", k), Spec{Graphs: split(r, ts, k, false), Query: q2.text()}, true)
 			for rot := 0; rot < k; rot++ {
-				emitv(fmt.Sprintf("split:rr%d.%d", k, rot), Spec{Graphs: roundRobin(ts, k, rot), Query: q2.text()}, true)
+				// graph names that are substrings of names listed before them, and the other way round
+				q3 := q2
+				q3.names = nameSchemes[1+(gi+rot)%(len(nameSchemes)-1)]
+				emitv(fmt.Sprintf("split:rr%d.%d", k, rot), Spec{Graphs: roundRobin(ts, k, rot), Names: q3.names, Query: q3.text()}, true)
 			}
 		}
 		// superset of the data
